@@ -290,17 +290,24 @@ def coq_cross_check(res, info):
             items.append("nlb lower_all [%s]" % "; ".join(i.split()))
         elif f[0] in ("S0", "S1"):
             names = "[" + "; ".join(nl(unhex(h)) for h in f[1:]) + "]"
-            items.append("onlb (ids_from %s %s) [%s]" % ("init" if f[0] == "S1" else "[]", names, "; ".join(i.split())))
+            if f[0] == "S1":
+                items.append("onlb (match init_t with Some t => insert_ids t %s | None => None end) [%s]" % (names, "; ".join(i.split())))
+            else:
+                items.append("onlb (ids_from [] %s) [%s]" % (names, "; ".join(i.split())))
         elif f[0] == "K" and (i.startswith("kw:") or i == "id"):
             exp = "Some (Some %s)" % i[3:] if i.startswith("kw:") else "Some None"
-            items.append("okb (kw_index %d init %s) (%s)" % (info["nkw"], nl(unhex(f[1])), exp))
+            items.append("okb (match init_t with Some t => match insert lower_latin1 t %s with Some (_, s) => "
+                         "Some (if Nat.ltb (s_id s) %d then Some (s_id s) else None) | None => None end | None => None end) (%s)"
+                         % (nl(unhex(f[1])), info["nkw"], exp))
     pre = ("From Coq Require Import List Arith NArith Bool.\nImport ListNotations.\n"
            "From RH Require Import Symtab.Symtab Symtab.SymtabCase Lex.LangLexer.\nLocal Open Scope nat_scope.\n"
            "Definition nlb (x y : list nat) : bool := if list_eq_dec Nat.eq_dec x y then true else false.\n"
            "Definition onlb (x : option (list nat)) (y : list nat) : bool := match x with Some l => nlb l y | None => false end.\n"
            "Definition okb (x y : option (option nat)) : bool := match x, y with\n"
            "  | Some (Some a), Some (Some b) => Nat.eqb a b | Some None, Some None => true | _, _ => false end.\n"
-           "Definition init : list name := %s.\n" % init)
+           "Definition init : list name := %s.\n"
+           "(* `ids_from init ns` and `kw_index nkw init n` unfold to these calls on the table after `init` *)\n"
+           "Definition init_t : option table := Eval vm_compute in (run lower_latin1 [] init).\n" % init)
     body = ("(if list_eq_dec (list_eq_dec Nat.eq_dec) (map to_name keywords_2008) (firstn %d init) then true else false)"
             % info["nkw"])
     for it in items:
@@ -319,6 +326,10 @@ def oracle_stage(res, d, hbin, tier):
     proj_in = os.path.join(d, "projects.jsonl")
     nin = 0
     with open(proj_in, "w") as g:
+        # the big library projects first: they are the long pole of the parallel run
+        for pr in library_projects(tier):
+            g.write(json.dumps(pr) + "\n")
+            nin += 1
         for name in ("C13.projects.jsonl", "C13.harvest.jsonl"):
             p = os.path.join(VERIF, "corpus", name)
             if os.path.exists(p):
@@ -326,10 +337,7 @@ def oracle_stage(res, d, hbin, tier):
                     if l.strip() and not l.startswith("#"):
                         g.write(l if l.endswith("\n") else l + "\n")
                         nin += 1
-        for pr in library_projects(tier):
-            g.write(json.dumps(pr) + "\n")
-            nin += 1
-    ngen, ntrans = (3500, 12) if tier == "thorough" else (200, 4)
+    ngen, ntrans = (3500, 12) if tier == "thorough" else (150, 4)
     out = os.path.join(d, "oracle.jsonl")
     if os.path.exists(out):
         os.remove(out)
